@@ -5,6 +5,7 @@
 cap="$1"; shift
 ids="$*"; [ -z "$ids" ] && ids="C01 C02 C03 C04 C05 C06 C07 C08 C09 C10 C11 C12 C13 C14 C15 C16 C17 C18 C19 C20"
 out=probe_thorough.txt
+[ -x engine/gosym ] || sh bin/setup || exit 2
 for id in $ids; do
   VERIF_VERBOSE=1 VERIF_EVIDENCE_DIR=/tmp/probe_ev engine/gosym -verif "$(pwd)" -check checks/$id.json -tier thorough -tieronly -cap $cap -noreplay > /tmp/probe_$id.log 2>&1
   echo "== $id exit $?" >> $out
